@@ -28,7 +28,11 @@
 (* next Send on the stream returns io.EOF and the verdict itself is what   *)
 (* CloseAndRecv returns.  SendVariant "asfound": the stream writer returns *)
 (* the io.EOF of Send, which the client maps to ErrUnknown; "repaired":    *)
-(* it fetches the verdict.                                                 *)
+(* it fetches the verdict; "halfclose" (a first repair, withdrawn): it     *)
+(* fetches the verdict with CloseAndRecv, i.e. it half-closes a stream it  *)
+(* could not write to -- and after a cut connection that the client has    *)
+(* re-dialled, gRPC may replay what was sent so far on the new connection, *)
+(* so that the half-close ends a stream that carries a prefix.             *)
 (***************************************************************************)
 EXTENDS Integers, Sequences, FiniteSets, TLC, Json
 
@@ -104,6 +108,12 @@ ServerEnd ==
                ELSE IF Variant = "asfound" THEN "eof" ELSE "fail"
   /\ UNCHANGED <<len, kind, p, consumed, sent, cstate, key, arrived, class>>
 
+(* a cut, a transparent replay on a fresh connection, and a client that half-closes what it could not write *)
+ServerReplayEnd ==
+  /\ sstate = "recv" /\ cstate = "err" /\ kind = "cut" /\ SendVariant = "halfclose"
+  /\ sstate' = "eof"
+  /\ UNCHANGED <<len, kind, p, consumed, sent, cstate, key, arrived, class>>
+
 (* store.Set finished copying: content record, version record: the key changes *)
 ServerCommit ==
   /\ sstate = "eof"
@@ -115,7 +125,7 @@ ServerCommit ==
 
 Finished == (sstate \in {"commit", "fail", "rejected"}) /\ cstate \in {"ok", "err"}
 Done == Finished /\ UNCHANGED vars
-Next == ClientCopy \/ ClientFault \/ ClientClose \/ ServerReject \/ VerdictArrives \/ ServerEnd \/ ServerCommit \/ Done
+Next == ClientCopy \/ ClientFault \/ ClientClose \/ ServerReject \/ VerdictArrives \/ ServerEnd \/ ServerReplayEnd \/ ServerCommit \/ Done
 Spec == Init /\ [][Next]_vars
 
 (* ====================== C10 ====================== *)
